@@ -358,7 +358,7 @@ pub fn check_pool(c: &FiltCase, kind_sel: u8, workers: usize, st: &mut Stats) ->
     let n_adm = sub.len();
     let mut reference = run_pcap(skind, &sub, None).map_err(|e| fail!("pool:reference-error", "{e}"))?;
     drive::clear_clock_table();
-    let cfg = PoolCfg { workers, queue: frames.len() + 8, batch: 16, timeout_ms: 3, dispatchers: 1, perturb: None, max_sleep_us: 0 };
+    let cfg = PoolCfg { workers, queue: frames.len() + 8, batch: 16, timeout_ms: 3, dispatchers: 1, perturb: None, max_sleep_us: 0, max_conn: 1000 };
     let run = run_pool(pkind, &frames, &cfg, Some(&spec), Some(clock)).map_err(|e| fail!("pool:new", "{e}"))?;
     if let Some(p) = &run.worker_panic {
         return Err(Fail::new(format!("pool:worker-{}", crate::engine::panic_key(p)), p.clone()));
